@@ -733,7 +733,7 @@ def monitor_direct(case, obs):
 
 class C05(Prop):
     id = "C05"
-    props_file = ["Props/C05.v", "Props/C05_Examples.v"]
+    props_file = ["Props/C05.v", "Props/C05_Examples.v", "Props/C05_Bridge.v"]
     coq_imports = kc.COQ_IMPORTS
     n_quick = 700
     n_thorough = 16000
@@ -744,7 +744,9 @@ class C05(Prop):
                        "shared by several waiters, trees of depth <= 3 with nested/duplicated/pre-processed operands, values read "
                        "late), 45% random script families of kernel_common with condition-heavy weights; non-trivial = at least one "
                        "condition with >= 2 operands and a same-instant coincidence of >= 3 processed events; distinct by hash")
-    trusted_base = ["kernel harness props/kernel_common.py (real generators on the real Environment), extended in this plugin by an "
+    trusted_base = ["vlib/translate.py (Python ast, fail closed; tables in props/kernel_tie.py) regenerates before every build the translation of "
+                    "Condition.all_events / any_events / _check / _build_value of the tree under test (coq/Gen/Extracted_cond.v); the C05_gen_* theorems (Props/C05_Bridge.v) bridge them to cond_evaluate / cond_check / cond_build of Kernel/Model.v; Condition.__init__, _populate_value and _remove_check_callbacks (loops) are not translated",
+                    "kernel harness props/kernel_common.py (real generators on the real Environment), extended in this plugin by an "
                     "independent record of the real objects' public state (triggered/processed/ok/value/defused, Condition._count) "
                     "after every step and construction; Condition.succeed/fail wrapped per instance to see explicit triggers",
                     "times are exact: dyadic delays, Python numbers converted with fractions.Fraction",
@@ -766,6 +768,13 @@ class C05(Prop):
              "w_intr_then_spawn": 0.3, "w_interrupt_self": 0.1, "w_fine_pair": 0.3, "w_neg_delay": 0.1, "w_double_trigger": 0.5,
              "n_shared": (2, 4), "n_shared_timeouts": (1, 2), "p_top_exec": 0.45, "procs": (2, 6), "p_probe": 0.9,
              "p_fine": 0.04, "p_catch": 0.7}
+
+
+    # ---- second tie: kernel leaves translated from the tree under test before the Coq build (fail closed) ----
+    def pre_build(self):
+        from vlib import framework as fw
+        from props import kernel_tie
+        kernel_tie.write_extracted_cond(fw.REPO, fw.COQ)
 
     def gen_case(self, rng, tier):
         r = rng.random()
